@@ -86,6 +86,16 @@ def _run_query(spec, tier, qname, mism, logdir):
                 rep, detail = engine.replay_counterexample(q, files, cx["inputs"], cx["obligation"], cx["kind"], native_map=native_map, lits=lits)
             except Exception as ex:  # noqa: BLE001
                 rep, detail = False, {"note": "replay crashed: %r" % (ex,)}
+            if not rep:
+                for alt in cx.get("alternates", []):
+                    try:
+                        rep2, detail2 = engine.replay_counterexample(q, files, alt, cx["obligation"], cx["kind"], native_map=native_map, lits=lits)
+                    except Exception as ex:  # noqa: BLE001
+                        rep2, detail2 = False, {"note": "replay crashed: %r" % (ex,)}
+                    if rep2:
+                        cx["first_model_not_reproduced"] = cx["inputs"]
+                        cx["inputs"], rep, detail = alt, True, detail2
+                        break
             cx["reproduced_natively"] = rep
             cx["replay_detail"] = detail
             if rep:
